@@ -99,6 +99,7 @@ type lexer struct {
 	pos       ast.Pos
 	last      atomic.Value
 	started   bool // a token has been scanned
+	lb        bool // a linebreak has just been skipped: comments and newlines after a line continuation still belong to it
 }
 
 func newLexer(env *interp.ExecEnv, name string, r io.RuneScanner) *lexer {
@@ -907,6 +908,7 @@ func (l *lexer) scanRawToken() int {
 	if tok > 0 && tok != '\n' {
 		l.started = true
 	}
+	l.lb = false
 	return tok
 }
 
@@ -997,6 +999,14 @@ func (l *lexer) scanRaw() int {
 				l.unread()
 				return WORD
 			}
+			if l.lb {
+				// still inside the linebreak (after a line continuation)
+				l.unread()
+				if !l.linebreak() {
+					return -1
+				}
+				continue
+			}
 			return int(r)
 		case '#':
 			// comment
@@ -1004,7 +1014,7 @@ func (l *lexer) scanRaw() int {
 				l.unread()
 				return WORD
 			}
-			if !l.started {
+			if !l.started || l.lb {
 				// nothing precedes the comment: skip it together with the
 				// following blank and comment lines
 				l.unread()
@@ -1619,6 +1629,7 @@ func (l *lexer) linebreak() bool {
 		default:
 			if !hash {
 				l.unread()
+				l.lb = true
 				return true
 			}
 			l.b.WriteRune(r)
